@@ -203,11 +203,14 @@ def check_from_float(ctx, r, exact):
     nt = False
     for lo, hi, ilo, ihi, ax in ((r[0], r[1], b[0], b[1], 'x'),
                                  (r[2], r[3], b[2], b[3], 'y')):
-        tol = 0.0 if exact else 4 * 2.0 ** -52 * max(1.0, abs(lo), abs(hi))
-        ctx.check(ilo - 0.5 <= lo + tol and ihi - 0.5 >= hi - tol,
+        # the only slack the definition leaves is the rounding of the one
+        # addition v + 0.5: half an ulp of the sum (a full ulp is granted)
+        tlo = 0.0 if exact else math.ulp(abs(lo) + 0.5)
+        thi = 0.0 if exact else math.ulp(abs(hi) + 0.5)
+        ctx.check(ilo - 0.5 <= lo + tlo and ihi - 0.5 >= hi - thi,
                   f'from_float | extent does not cover the rectangle ({ax})',
                   f'{r} -> {b}', spec)
-        ctx.check(ilo + 0.5 > lo - tol and ihi - 1.5 < hi + tol,
+        ctx.check(ilo + 0.5 > lo - tlo and ihi - 1.5 < hi + thi,
                   f'from_float | not the smallest box ({ax})',
                   f'{r} -> {b}', spec)
         for v in (lo, hi):
@@ -359,9 +362,18 @@ class FromFloatLattice(Relation):
 
 
 def _nudge(v, k):
+    if isinstance(k, float):
+        return v + k
     for _ in range(abs(k)):
         v = math.nextafter(v, math.inf if k > 0 else -math.inf)
     return v
+
+
+# distances from a pixel edge: 1..4 ulps, and absolute offsets down the scale
+# at which a 'snap to the edge' tolerance would act
+NUDGES = ([0, 0, 1, -1, 2, -2, 3, -3, 4, -4]
+          + [s * d for d in (2.0 ** -44, 1e-12, 2.0 ** -33, 0.9e-9, 1e-7, 1e-5)
+             for s in (1, -1)])
 
 
 INT_TYPES = ['int', 'int64', 'int32', 'intp', 'uint?']
@@ -393,7 +405,7 @@ class Random(Relation):
             small = st.integers(-8, 8)
             return st.one_of(
                 st.tuples(st.one_of(k, small), st.sampled_from([0.5, -0.5, 0.0]),
-                          st.integers(-3, 3)).map(
+                          st.sampled_from(NUDGES)).map(
                     lambda t: _nudge(t[0] + t[1], t[2])),
                 st.floats(-1e9, 1e9, allow_nan=False),
                 st.floats(-10, 10, allow_nan=False))
